@@ -351,3 +351,50 @@ def one_or_many(values, k: int, many=set):
     if len(values) == 1 and k % 2:
         return values[0]
     return many(values)
+
+
+class user_recursion_limit:
+    """Run a block with the interpreter's default recursion headroom (1000 frames) counted from HERE.
+
+    The workers raise the recursion limit for the harness's own oracles; a library call judged for totality must see
+    what a user calling it from a short script would see -- no more (a deep recursion inside the library would go
+    unnoticed) and no less (the frames of Hypothesis and the harness below this point are not the library's fault)."""
+
+    def __init__(self, limit=1000):
+        self.limit = limit
+
+    def __enter__(self):
+        import sys
+
+        depth, f = 0, sys._getframe()
+        while f is not None:
+            depth += 1
+            f = f.f_back
+        self.old = sys.getrecursionlimit()
+        sys.setrecursionlimit(self.limit + depth)
+        return self
+
+    def __exit__(self, *exc):
+        import sys
+
+        sys.setrecursionlimit(self.old)
+        return False
+
+
+def enlarge(g, shape, n, anchor):
+    """A copy of graph dict ``g`` with ``n`` extra nodes attached at node ``anchor``; the extra nodes carry no
+    bidirected edge, so districts, hedges and the identifiability of every query over the old nodes are unchanged.
+
+    shapes: 'chain-above' (L1 -> ... -> Ln -> anchor), 'chain-below' (anchor -> L1 -> ... -> Ln), 'parents' (n parents of
+    anchor), 'children' (n children of anchor), 'isolated' (n nodes without edges)."""
+    new = [f"L{i}" for i in range(1, n + 1)]
+    di = [list(e) for e in g["di"]]
+    if shape == "chain-above":
+        di += [[new[i], new[i + 1]] for i in range(n - 1)] + [[new[-1], anchor]]
+    elif shape == "chain-below":
+        di += [[anchor, new[0]]] + [[new[i], new[i + 1]] for i in range(n - 1)]
+    elif shape == "parents":
+        di += [[x, anchor] for x in new]
+    elif shape == "children":
+        di += [[anchor, x] for x in new]
+    return {"nodes": list(g["nodes"]) + new, "di": di, "bi": [list(e) for e in g["bi"]]}
